@@ -128,12 +128,14 @@ func (h *gHist) gRoundTrip(name string) *gResult {
 		"cpId": gCounterpartyIDs(A, dumpA[ibcexported.StoreKey])}
 
 	// re-export from the imported chain
-	reEqual := true
+	reEqual := true // of the ibc core genesis (the model's scope); every module's difference is a violation
 	if len(panics) == 0 {
 		js2 := gExport(C).gJSON(C)
 		for mod, b := range js {
 			if !bytes.Equal(b, js2[mod]) {
-				reEqual = false
+				if mod == "ibc" {
+					reEqual = false
+				}
 				report("reexport-differs/"+mod, "re-export of module "+mod+" from the imported chain differs from the first export",
 					lib.M{"first": gClip(string(b)), "second": gClip(string(js2[mod]))})
 			}
